@@ -28,6 +28,7 @@ class _MaybeFalsy:
     """about a third of the resource values are falsy objects (think of an empty registry or mapping)"""
 
     truth = True
+    fid: Any = None  # set on instances that a factory produced (see make_factory)
 
     def __bool__(self) -> bool:
         return self.truth
@@ -101,6 +102,12 @@ class FactoryFailed(Exception):
     pass
 
 
+def is_product(obj: Any) -> bool:
+    """products of factories: Product instances, or instances of exactly one of the pool's plain classes (a factory declared for
+    a base class or an unrelated type may well build an object whose concrete class is another registered type)"""
+    return getattr(obj, "fid", None) is not None
+
+
 class Product:
     def __init__(self, fid: int, serial: int) -> None:
         self.fid, self.serial = fid, serial
@@ -150,6 +157,9 @@ class Actor:
         self.received: list[Any] = []  # events seen by the real listener
         self.teardown_ran: list[Any] = []
         self.exit_exc: BaseException | None = None
+
+
+NOT_CALLABLE: list[Any] = ["notcallable", True, 1, 0, False, 2.5, [], (1, 2), {"close": 1}, object()]
 
 
 class Engine:
@@ -205,13 +215,18 @@ class Engine:
 
     # ---- factories
 
-    def make_factory(self, fid: int, is_async: bool, annotate: Any, async_kind: str = "def", partial: bool = False) -> Any:
+    def make_factory(self, fid: int, is_async: bool, annotate: Any, async_kind: str = "def", partial: bool = False,
+                     pclass: int | None = None) -> Any:
         """sync factories count their calls; async factories are plain coroutine functions that count when
         their body starts to run (so a coroutine that is created and closed by the sync API counts 0)"""
         eng = self
 
-        def produce() -> Product:
-            return Product(fid, eng.factory_calls[fid])
+        def produce() -> Any:
+            if pclass is None:
+                return Product(fid, eng.factory_calls[fid])
+            v = POOL[pclass]()
+            v.fid, v.serial, v.truth = fid, eng.factory_calls[fid], fid % 3 != 0
+            return v
 
         if is_async:
 
@@ -521,9 +536,14 @@ class Engine:
         ctx = self.ctx_objs[cid]
         a = self.actors[cid]
         tag = ("val", cmd["vid"])
-        value = None if cmd.get("none_value") else make_value(cmd["vtype"], tag)
-        if value is not None:
-            self.pin(tag, value)
+        if cmd.get("reuse") and not cmd.get("none_value"):
+            tag = tuple(cmd["reuse"])
+            value = self.objs[tag]
+            self.inc("adds_of_an_object_already_in_the_context")
+        else:
+            value = None if cmd.get("none_value") else make_value(cmd["vtype"], tag)
+            if value is not None:
+                self.pin(tag, value)
         types_arg: Any
         if cmd["types"] == "invalid":
             types_arg = [POOL[0], "not a type"]
@@ -541,8 +561,10 @@ class Engine:
 
             kwargs["teardown_callback"] = probe
         elif cmd["teardown"] == "notcallable":
-            kwargs["teardown_callback"] = "notcallable"
+            # every kind of non-callable a caller may pass by mistake (truthy, falsy, equal to True/False, containers)
+            kwargs["teardown_callback"] = NOT_CALLABLE[cmd.get("teardown_value", 0) % len(NOT_CALLABLE)]
             td_tag = "notcallable"
+            self.inc(f"add_with_non_callable_teardown_{type(kwargs['teardown_callback']).__name__}")
 
         async def call() -> None:
             if cmd["via"] == "shortcut":
@@ -587,7 +609,9 @@ class Engine:
         else:
             kwargs["types"] = [POOL[t] for t in types]
         factory = self.make_factory(fid, cmd["is_async"], annotate, cmd.get("async_kind", "def") if annotate is None else "def",
-                                    partial=bool(cmd.get("partial")))
+                                    partial=bool(cmd.get("partial")), pclass=cmd.get("pclass"))
+        if cmd.get("pclass") is not None:
+            self.inc("factories_building_an_instance_of_a_pool_class")
         if cmd.get("partial"):
             self.inc("partial_factories")
             if annotate is not None:
@@ -677,7 +701,7 @@ class Engine:
                 elif tag[0] == "gen":
                     self.inc("repeat_lookups_of_generated")
             else:  # first time this generated tag is seen: must be a fresh product of that factory
-                if not isinstance(obj, Product) or obj.fid != tag[1] or id(obj) in self.tag_of:
+                if not is_product(obj) or obj.fid != tag[1] or id(obj) in self.tag_of:
                     key = "generated-not-fresh"
                     self.bad(key, f"{cmd}: context {cid} must generate its own product of factory {tag[1]} here, but got {self.tagname(obj) if id(obj) in self.tag_of else obj!r}")
                 else:
@@ -759,12 +783,12 @@ class Engine:
                                                        f"{len(distinct)} different objects", **witness, overlapped=overlapped)
             if tag not in self.objs and objs:
                 first = objs[0]
-                if isinstance(first, Product) and first.fid == tag[1] and id(first) not in self.tag_of:
+                if is_product(first) and first.fid == tag[1] and id(first) not in self.tag_of:
                     self.pin(tag, first)
                     # pin the others too so that they print readably
                     for o in objs[1:]:
                         if id(o) not in self.tag_of:
-                            self.tag_of[id(o)] = ("extra-product", o.fid, o.serial) if isinstance(o, Product) else repr(o)
+                            self.tag_of[id(o)] = ("extra-product", o.fid, o.serial) if is_product(o) else repr(o)
                             self.objs[("pin", id(o))] = o
             if generation is not None and not failing:
                 fid = generation[0]
@@ -781,7 +805,7 @@ class Engine:
                 if delta != 1 + failed:
                     self.bad("race-async-factory-overlap", f"{cmd}: the first generation failed; the factory was then called {delta - failed} more time(s) for this "
                                                            f"context by the {len(cmd['pre'])} concurrent lookups and the follow-up lookup (expected exactly 1)", **witness)
-                if tag not in self.objs and later[0] == "ok" and isinstance(later[1], Product) and id(later[1]) not in self.tag_of:
+                if tag not in self.objs and later[0] == "ok" and is_product(later[1]) and id(later[1]) not in self.tag_of:
                     self.pin(tag, later[1])
             if later[0] != "ok" or (tag in self.objs and later[1] is not self.objs[tag]):
                 self.bad("race-async-factory-overlap" if len(distinct) > 1 else "singleton-different-object",
@@ -811,8 +835,10 @@ class Engine:
         class Boom(Exception):
             pass
 
+        tmp_parent = cmd.get("tmp_parent", parent)
+
         async def seq() -> Any:
-            tmp = Context()
+            tmp = Context() if tmp_parent == parent else Context(self.ctx_objs[tmp_parent])
             self.ctx_objs[tmp_cid] = tmp
             self.cid_of[id(tmp)] = tmp_cid
             try:
@@ -833,7 +859,9 @@ class Engine:
         if kind != "ok":
             self.bad("lifecycle-sibling-seq", f"{cmd}: {describe_exc(new)}")
             return []
-        self.model.construct(tmp_cid, parent)
+        self.model.construct(tmp_cid, tmp_parent)
+        if tmp_parent != parent:
+            self.inc("sibling_sequences_with_foreign_parent")
         _, events = self.model.add_resource(tmp_cid, tag, cmd["vtype"], cmd["name"], [cmd["type"]], None, None)
         self.model.ctxs[tmp_cid].state = "closed"
         self.ctx_objs[new_cid] = new
@@ -865,7 +893,7 @@ class Engine:
                 if tag is None:
                     tag = ("adopted", cmd["vid"], ti)
                     self.pin(tag, obj)
-                mc.resources[key] = MRes(tag, (ti,), name, None, generated=isinstance(obj, Product))
+                mc.resources[key] = MRes(tag, (ti,), name, None, generated=is_product(obj))
 
     async def do_race_add(self, cmd: dict[str, Any], calls_before: dict[int, int]) -> list[Any]:
         """one task triggers an async multi-type factory, another adds a static resource under one of the factory's
@@ -944,7 +972,7 @@ class Engine:
             return ev1 + (ev2_full if kept else [])
         if self.check_outcome("lookup[factory]", exp_look, state["lookup"], cmd) and exp_look[0] == "ok":
             gtag, obj = exp_look[1], state["lookup"][1]
-            if gtag not in self.objs and isinstance(obj, Product) and id(obj) not in self.tag_of:
+            if gtag not in self.objs and is_product(obj) and id(obj) not in self.tag_of:
                 self.pin(gtag, obj)
         # afterwards both pairs must still resolve to what was handed out
         for t, want in ((t2, tag if exp_add[0] == "ok" else None), (t1, exp_look[1] if exp_look[0] == "ok" else None)):
@@ -990,7 +1018,11 @@ class Engine:
                 if not free:
                     return None
                 ft, fn = rng.choice(free)
-                return {"op": "sibling_seq", "parent": parent, "tmp_cid": self.fresh(), "cid": self.fresh(), "vid": self.fresh(),
+                # the short-lived context is usually an implicit child of `parent`; sometimes it is given another open context
+                # as explicit parent (entered and left inside `parent`'s task all the same)
+                others = [c for c in open_ if c != parent and (ft, fn) not in m.ctxs[c].resources]
+                tmp_parent = rng.choice(others) if others and rng.random() < 0.4 else parent
+                return {"op": "sibling_seq", "parent": parent, "tmp_parent": tmp_parent, "tmp_cid": self.fresh(), "cid": self.fresh(), "vid": self.fresh(),
                         "vtype": rng.randrange(Pool.N_CLASSES), "type": ft, "name": fn,
                         "how": rng.choice(["clean", "teardown_raises", "block_raises"]), "then_enter": rng.random() < 0.7}
             return {"op": "construct", "cid": self.fresh(), "parent": parent, "how": rng.choice(["explicit", "implicit"]),
@@ -1009,6 +1041,13 @@ class Engine:
             cmd = {"op": "add_resource", "cid": cid, "vid": self.fresh(), "vtype": rng.randrange(Pool.N_CLASSES), "name": name, "types": types,
                    "types_single": rng.random() < 0.5, "desc": rng.choice([None, "d1", "d2"]), "via": rng.choice(["method", "shortcut"]),
                    "teardown": rng.choice([None, "probe", "probe"])}
+            own = [res.tag for res in mc.resources.values() if isinstance(res.tag, tuple) and res.tag[0] == "val" and res.tag in self.objs
+                   and type(self.objs[res.tag]) in POOL.classes]
+            if own and rng.random() < 0.12:
+                # the very object that already sits in this context is added again (same or other name, overlapping or new types)
+                tag = rng.choice(sorted(set(own)))
+                cmd["reuse"] = list(tag)
+                cmd["vtype"] = POOL.classes.index(type(self.objs[tag]))
             if r < p["p_invalid"]:
                 which = rng.choice(["none_value", "invalid_types", "notcallable"])
                 if which == "none_value":
@@ -1017,6 +1056,7 @@ class Engine:
                     cmd["types"] = "invalid"
                 else:
                     cmd["teardown"] = "notcallable"
+                    cmd["teardown_value"] = rng.randrange(len(NOT_CALLABLE))
             return cmd
         if op == "add_factory":
             ntypes = rng.choice([1, 1, 2, 2, 3])
@@ -1024,7 +1064,9 @@ class Engine:
             cmd = {"op": "add_factory", "cid": cid, "fid": self.fresh(), "name": name, "types": types, "types_single": rng.random() < 0.5,
                    "annotated": rng.random() < 0.3, "desc": rng.choice([None, "fd"]), "is_async": rng.random() < 0.5,
                    "async_kind": rng.choice(["def", "def", "lambda", "object"]), "partial": rng.random() < 0.15,
-                   "via": rng.choice(["method", "shortcut"])}
+                   "via": rng.choice(["method", "shortcut"]),
+                   # concrete class of what the factory builds: a class of its own, or exactly one of the pool's plain classes
+                   "pclass": rng.randrange(Pool.N_CLASSES) if rng.random() < 0.35 else None}
             if rng.random() < p["p_invalid"]:
                 cmd["types"] = rng.choice(["missing", "none_in_types"])
                 cmd["annotated"] = False
